@@ -17,6 +17,33 @@ def closure(ctx, exe, tag, ns, nw, nu, faults, stray, props):
                expect_states=r.distinct)
 
 
+def ptr_line(o):
+    op = o["op"]
+    b = lambda x: 1 if x else 0
+    if op == "salloc":
+        mask = (0 if o["ok"][0] else 1) | (0 if o["ok"][1] else 2)
+        return f"0 {o['s']} {o['clr']} {mask} {b(o['zero'])}"
+    if op == "ualloc":
+        return f"10 {o['u']} {b(o['clr'])} {0 if o['ok'][0] else 1} {b(o['zero'])}"
+    two = {"share": (1, "e", "n"), "sswap": (2, "a", "b"), "wfrom": (6, "w", "s"), "wlock": (7, "w", "s"), "wswap": (8, "a", "b"),
+           "urelease": (11, "u", "outs"), "uswap": (12, "a", "b")}
+    one = {"sreset": (3, "s"), "sget": (4, "s"), "sunique": (5, "s"), "wreset": (9, "w"), "ureset": (13, "u"), "uget": (14, "u")}
+    if op in two:
+        k, x, y = two[op]
+        return f"{k} {o[x]} {o[y]}"
+    if op in one:
+        k, x = one[op]
+        return f"{k} {o[x]}"
+    raise HarnessError(f"no driver line for generated operation {o}")
+
+
+def generated(ctx, exe, tag, n, depth, num, props):
+    """spec -> code: walks of the Ptr machine (operations from its own OpSet, allocation failures included) chosen
+    by TLC's simulator, replayed into src/memory.c"""
+    gen_replay(ctx, tag, "GenPtr", "", consts(*n) + "\n  WithFaults = TRUE", depth, num, ptr_line, exe, [n[0], n[1], n[2], 1, 0],
+               "TracePtr", consts(*n), props)
+
+
 def run(ctx):
     props = {ctx.pid}
     exe = build(ctx, "drv_ptr", "drv_ptr.c", LIB, wrap=WRAP)
@@ -25,12 +52,16 @@ def run(ctx):
         closure(ctx, exe, "s2w1u1", 2, 1, 1, True, stray, props)
         if not stray:
             closure(ctx, exe, "s2w2u0", 2, 2, 0, False, False, props)
+        if not stray:
+            generated(ctx, exe, "gen-s3w2u2", (3, 2, 2), 40, 20, props)
         n, steps = (3, 2, 2), 3000
     else:
         closure(ctx, exe, "s2w1u1", 2, 1, 1, True, stray, props)
         closure(ctx, exe, "s3w2u2", 3, 2, 2, not stray, stray, props)
         # objects set up with the CSTL_*_INITIALIZER macros instead of the init functions: same closure, same model
         closure(ctx, build(ctx, "drv_ptr_macro", "drv_ptr.c", LIB, wrap=WRAP, defs=["USE_INITIALIZER"]), "s2w1u1-macro", 2, 1, 1, True, stray, props)
+        if not stray:
+            generated(ctx, exe, "gen-s4w3u2", (4, 3, 2), 80, 150, props)
         n, steps = (4, 3, 3), 30000
     impl_phase(ctx, "rand", exe, ["random", ctx.seed, steps, 2], [n[0], n[1], n[2], 1, 0], "TracePtr", "", consts(*n), props)
     if stray:
